@@ -144,7 +144,23 @@ func runTx(tx *corazawaf.Transaction, pl txPlan) (out string, readers []io.Reade
 		if !step() {
 			return
 		}
-		it, nw, err := tx.WriteRequestBody([]byte(pl.Body))
+		// the body arrives in several chunks (the first fits the in-memory limit, a later one
+		// crosses it): the spill path of the buffer is exercised with a non-empty memory part
+		var it *types.Interruption
+		var nw int
+		var err error
+		for off := 0; off < len(pl.Body) || off == 0; off += 5 {
+			end := off + 5
+			if end > len(pl.Body) {
+				end = len(pl.Body)
+			}
+			var n1 int
+			it, n1, err = tx.WriteRequestBody([]byte(pl.Body[off:end]))
+			nw += n1
+			if it != nil || err != nil || end == len(pl.Body) {
+				break
+			}
+		}
 		rec("wb", it)
 		fmt.Fprintf(&sb, "n=%d,e=%v;", nw, err != nil)
 		if r, err := tx.RequestBodyReader(); err == nil {
